@@ -410,6 +410,8 @@ def configs(tier):
         add(R11, "wb4-rb4", mbl=4, dc="zero")
         add(R11, "wb2-r1-r1", mbl=2, base_address=0x40)
         add(R11, "r1-w1-r1", mbl=2)
+        # pipelined master (legal Avalon-MM): the next request is presented as soon as the previous one was accepted, also while a read is outstanding
+        add(R11, "r1-w1-r1", mbl=2, pipelined=True, raw="ordered"); add(R11, "rb2-wb2-rb2", mbl=2, gaps=False, pipelined=True, raw="ordered"); add(R21, "r1-w1-r1", mbl=2, pipelined=True, raw="ordered")
         add(R11, "wb3-rb3", mbl=3, dc="zero", decoupled=True); add(R14, "wb2-rb2", mbl=2, decoupled=True); add(R21, "wb2-rb2", mbl=2, decoupled=True)
         # the same without idle cycles inside write bursts (everything else free)
         add(R11, "wb3-rb3", mbl=3, gaps=False); add(R11, "wb4-rb4", mbl=4, gaps=False); add(R11, "wb2-wb2-rb3", mbl=3, gaps=False)
